@@ -141,6 +141,39 @@ Theorem mulM_mulMInv_id_R (t : tree X) :
 Proof. eapply mulM_mulMInv_id; laws. Qed.
 End C02R.
 
+(** ** the per-body hypothesis for small mobility spaces *)
+(** the per-body hypothesis discharged for small mobility spaces: the model's Gauss-Jordan inverse of a symmetric D with
+    non-zero pivots is a symmetric inverse (dof 0, 1, 2) *)
+Lemma gj_sym_inverse_0 : sym_inverse KR 0 [] (gj_inverse ROps []).
+Proof. split; intros [|? ?] E; try discriminate; reflexivity. Qed.
+Lemma gj_sym_inverse_1 d : d <> 0 -> sym_inverse KR 1 [[d]] (gj_inverse ROps [[d]]).
+Proof. intros Hd. split; intros [|e0 [|? ?]] E; try discriminate; cbv - [Rplus Rmult Rminus Rdiv Ropp Rinv IZR]. all: (apply f_equal2; [field; auto | reflexivity]). Qed.
+Lemma gj_sym_inverse_2 a b c : a <> 0 -> a * c - b * b <> 0 -> sym_inverse KR 2 [[a; b]; [b; c]] (gj_inverse ROps [[a; b]; [b; c]]).
+Proof. intros Ha Hdet.
+  split; intros [|e0 [|e1 [|? ?]]] E; try discriminate; cbv - [Rplus Rmult Rminus Rdiv Ropp Rinv IZR].
+  all: (apply f_equal2; [field; auto | apply f_equal2; [field; auto | reflexivity]]).
+  all: (split; [exact Ha | intro E0; apply Hdet; lra]).
+Qed.
+
+(** the inverse stored at every body of the articulated-body pass is the model's inverse of the stored D *)
+Lemma abi_pass_DI {X} (nd : X -> node (SpatialVec R) (Vec3 R) (SpInertia (T:=R))) (t : tree X) :
+  Forall (fun y => a_DI (snd y) = gj_inverse ROps (a_D (snd y))) (flatten (abi_pass KR AR nd t)).
+Proof. induction t as [x cs IH] using tree_ind'. unfold abi_pass. cbn [inward flatten]. constructor; [reflexivity|].
+  apply Forall_flat_map_map. exact IH. Qed.
+
+(** hence the per-body hypothesis holds at every body whose D block has at most 2 mobilities and non-zero pivots *)
+Theorem body_ok_small {X} (nd : X -> node (SpatialVec R) (Vec3 R) (SpInertia (T:=R))) (dy : X -> dyn R (SpatialVec R)) (t : tree X) y :
+  In y (flatten (abi_pass KR AR nd t)) ->
+  length (d_f (dy (fst y))) = length (n_H (nd (fst y))) ->
+  (length (n_H (nd (fst y))) = 0%nat /\ a_D (snd y) = [])
+  \/ (exists d, length (n_H (nd (fst y))) = 1%nat /\ a_D (snd y) = [[d]] /\ d <> 0)
+  \/ (exists a b c, length (n_H (nd (fst y))) = 2%nat /\ a_D (snd y) = [[a; b]; [b; c]] /\ a <> 0 /\ a * c - b * b <> 0) ->
+  body_ok nd dy y.
+Proof. intros Hin Hlen Hd. pose proof (abi_pass_DI nd t) as HDI. rewrite Forall_forall in HDI. specialize (HDI y Hin).
+  unfold body_ok, node_ok. split; [|exact Hlen]. rewrite HDI.
+  destruct Hd as [[Hn ->]|[[d [Hn [-> Hd]]]|[a [b [c [Hn [-> [Ha Hdet]]]]]]]]; rewrite Hn.
+  - apply gj_sym_inverse_0. - apply gj_sym_inverse_1; auto. - apply gj_sym_inverse_2; auto. Qed.
+
 (** ** non-vacuity: a concrete tree (Ground - pin body - welded body) meets the per-body hypotheses with the
     Gauss-Jordan inverse of the model, so the main theorem applies to it *)
 Definition ex_nd (x : nat) : node (SpatialVec R) (Vec3 R) (SpInertia (T:=R)) :=
